@@ -46,7 +46,7 @@ func deadlineOf(e *an.Expr) (string, bool) {
 
 func c16Lifetimes(c *Ctx, fn *ssa.Function, fields []string) {
 	name := c.fname(fn)
-	ps := c.pathsO("R-C16-1", fn, an.PathOpts{})
+	ps := c.pathsO("R-C16-1", fn, an.PathOpts{InlinePaths: func(f *ssa.Function) bool { return f.Pkg == fn.Pkg && inlineLoopFree(f) }})
 	nDep := 0
 	for _, p := range ps {
 		if p.Panic != nil {
